@@ -1129,6 +1129,9 @@ void run_episode(uint64_t seed, uint64_t ep, const std::string& mode) {
   ctx.workers = kind == 0 ? 0 : int(r.range(1, 8));
   ctx.async_threads = int(r.range(1, 3));
   g_ctx = &ctx;
+  // some episodes are oversubscribed (all threads of the episode inherit the mask): preemption at arbitrary instructions
+  int pin = (kind != 0 && r.chance(1, 8)) ? int(r.range(1, 3)) : 0;
+  if (pin) { vf::pin_cpus(pin); VF_COUNT("obs:pinned_episodes"); }
 
   af::ThreadPoolGraphExecutor pool;
   HExec hexec;
@@ -1178,6 +1181,7 @@ void run_episode(uint64_t seed, uint64_t ep, const std::string& mode) {
   if (kind == 1) pool.stop();
   if (kind == 2) { hexec.stop(); g_hexec = nullptr; }
   g_ctx = nullptr;
+  if (pin) vf::pin_cpus(0);
   vf::thread_end();
 }
 
